@@ -249,6 +249,37 @@ func c09Exec(c c09Case, bases []c09Base, meta *xt.Node) c09Result {
 		}
 		res.Labels = []string{"sigalg=" + c.SigAlg[strings.LastIndexAny(c.SigAlg, "#:")+1:], "key=" + c.Key}
 		record(w.Do(world.RawRequest("GET", "", w.Cfg.SSOPath(), raw, "", nil)))
+	case "sp-shape":
+		// registered SP metadata lacks optional parts; the (possibly edited) base message is sent by that SP
+		b := findBase()
+		t, labels := applyEdits(b.tree, c.Edits...)
+		res.Labels = []string{"registered-sp=" + c.Key}
+		for _, l := range labels {
+			res.Labels = append(res.Labels, b.name+":"+l)
+		}
+		w, err := world.New(world.Config{})
+		if err != nil {
+			panic(err)
+		}
+		a := msg.SPA()
+		switch c.Key {
+		case "no-acs":
+			a.ACS = nil
+		case "no-slo":
+			a.SLO = nil
+		case "no-keys":
+			a.Certs = nil
+		case "bare":
+			a.ACS, a.SLO, a.Certs = nil, nil, nil
+		case "acs-without-attributes":
+			a.ACS = []msg.ACS{{}}
+		}
+		if _, err := w.Store.RegisterSP("app-a", a.XML()); err != nil {
+			res.Class = "registration-refused"
+			return res
+		}
+		w.Store.AddUser(&world.User{ID: "u-alice", Username: "alice", Email: "alice@example.com"})
+		record(w.Do(b.send(w, renderTree(t, b.constructed))))
 	case "meta-edit":
 		t, labels := applyEdits(meta, c.Edits...)
 		for _, l := range labels {
@@ -310,7 +341,7 @@ func init() { Registry["C09"] = runC09 }
 func runC09(ctx Ctx) int {
 	world.PinClock()
 	run := ev.NewRun("C09")
-	run.Rule = "every single (quick) / single+pair (thorough) structural edit {delete,duplicate,empty element; delete,empty,duplicate attribute} of 7 full-featured base messages and of an SP metadata document; every prefix and every single-byte substitution by {NUL,<,>,\",&,0xFF} of each base document; endpoint x method x body grid; SigAlg x registered key type; certificate variants. One execution = one fresh provider + one real ServeHTTP / NewServiceProvider call under recover()"
+	run.Rule = "every single (quick) / single+pair (thorough) structural edit {delete,duplicate,empty element; delete,empty,duplicate attribute} of 7 full-featured base messages and of an SP metadata document; every prefix and every single-byte substitution by {NUL,<,>,\",&,0xFF} of each base document; endpoint x method x body grid; SigAlg x registered key type; certificate variants; every base message and single edit against 5 registered-SP metadata shapes lacking optional parts (no ACS / no SLO / no keys / bare / attribute-less ACS). One execution = one fresh provider + one real ServeHTTP / NewServiceProvider call under recover()"
 	run.Assume = []string{"byte-level corruption beyond edit distance 1 and coverage-guided fuzzing (sampling) are outside this check", "a DSA certificate (not constructible with crypto/x509) is not among the registered key types; DSA SigAlg URIs are exercised against RSA/ECDSA/Ed25519/no key"}
 	bases := c09Bases()
 	meta := c09MetaBase()
@@ -369,6 +400,14 @@ func runC09(ctx Ctx) int {
 	for _, a := range c09SigAlgs {
 		for _, k := range c09KeyTypes {
 			cases = append(cases, c09Case{Fam: "sigalg", SigAlg: a, Key: k})
+		}
+	}
+	for _, shape := range []string{"no-acs", "no-slo", "no-keys", "bare", "acs-without-attributes"} {
+		for _, b := range bases {
+			cases = append(cases, c09Case{Fam: "sp-shape", Base: b.name, Key: shape})
+			for _, e := range allEdits(b.tree) {
+				cases = append(cases, c09Case{Fam: "sp-shape", Base: b.name, Key: shape, Edits: []edit{e}})
+			}
 		}
 	}
 	cases = append(cases, c09Case{Fam: "meta-edit"})
